@@ -558,6 +558,16 @@ int main(int argc, char **argv) {
     /* Process-level policy of the harness: a write to a closed pipe/socket returns EPIPE
      * (janet raises an error) instead of killing the process with SIGPIPE. */
     signal(SIGPIPE, SIG_IGN);
+    /* Everything else starts from the default disposition and an empty mask, whatever the check was
+     * started under: an ignored signal survives exec, so under nohup a child that janet kills with
+     * SIGHUP (C16 signal scenarios) would never die. */
+    {
+        static const int sigs[] = {SIGHUP, SIGINT, SIGQUIT, SIGTERM, SIGUSR1, SIGUSR2, SIGALRM, SIGCHLD, SIGCONT, SIGTSTP};
+        for (size_t i = 0; i < sizeof(sigs) / sizeof(sigs[0]); i++) signal(sigs[i], SIG_DFL);
+        sigset_t none;
+        sigemptyset(&none);
+        sigprocmask(SIG_SETMASK, &none, NULL);
+    }
     const char *e;
     if ((e = getenv("VERIF_VTIME")) && *e == '1') vtime_on = 1;
     if (getenv("VERIF_SCHED")) vtime_on = 1;   /* the controlled scheduler owns time */
